@@ -98,7 +98,12 @@ class C13(XsProp):
         for c, o in zip(cases, impl):
             st = c.split(' | ')
             ou = o.split(' | ')
-            if len(st) != len(ou) or 'PANIC' in o or 'use 1' not in st:
+            if 'PANIC' in o and 'use 1' in st:
+                n += 1
+                fails.append(('case: %s\nword: %s\nresult: %s' % (c, src_of(c)[0], o[:400]),
+                              'word %s panicked on one of the two argument lists (with / without tags)' % src_of(c)[0]))
+                continue
+            if len(st) != len(ou) or 'use 1' not in st:
                 continue
             iu = st.index('use 1')
             ra, sa = ou[iu - 2], ou[iu - 1]
